@@ -238,6 +238,56 @@ def main(tier: str) -> int:
                          {"weights_optimizer": wo.__name__, "seed": chk.seed * 10 + seed, "shape": list(w.shape), "min": float(np.min(w)), "max": float(np.max(w))},
                          {"fn": "train_net_weights", "optimizer": wo.__name__})
 
+    # non-default settings of the real-coded weight optimizers (two-difference strategies, large F): the repaired trial
+    # vectors, hence the trained weights, still lie in [-10, 10]; a net with a relu block rewards large weights of either sign
+    est_r = MLPEARegressor(n_iter=3, pop_size=6, hidden_layers=(3,), offset=True, activation="relu")
+    net_r = est_r._defitne_net(3, 1)
+    Xr2 = np.array([[0.1, 0.9, 1.0], [0.8, 0.2, 1.0], [0.5, 0.5, 1.0], [0.3, 0.7, 1.0], [0.9, 0.9, 1.0]])
+    yr2 = np.array([5.0, -40.0, 30.0, -7.0, 60.0])
+    for wo, extra in ((O.DifferentialEvolution, {"mutation": "rand_2", "F": 0.9, "CR": 0.3}), (O.DifferentialEvolution, {"mutation": "rand_1", "F": 1.5, "CR": 0.9}),
+                      (O.DifferentialEvolution, {"mutation": "best_2", "F": 1.2, "CR": 0.5}), (O.jDE, {"mutation": "rand_2"}), (O.SHADE, {})):
+        for seed in range(2 if tier == "quick" else 6):
+            numba_seed(chk.seed * 10 + 40 + seed)
+            w, _ = train_net_weights(net_r, Xr2, yr2, {"iters": 25, "pop_size": 12, **extra}, wo, fitness_function_weights, "regression")
+            w = np.asarray(w, dtype=np.float64)
+            chk.count("train_nondefault_" + wo.__name__)
+            chk.case(("train_nd", wo.__name__, json.dumps(extra, sort_keys=True), seed))
+            if w.shape != (len(net_r._connects),) or np.any(w < -10 - 1e-9) or np.any(w > 10 + 1e-9) or not np.all(np.isfinite(w)):
+                chk.fail("trained weights are not one finite entry per connection within [-10, 10]",
+                         {"weights_optimizer": wo.__name__, "weights_optimizer_args": extra, "seed": chk.seed * 10 + 40 + seed, "shape": list(w.shape),
+                          "min": float(np.min(w)), "max": float(np.max(w))}, {"fn": "train_net_weights", "optimizer": wo.__name__, "clause": "nondefault"})
+                break
+    # the structure optimizer's own genotype_to_phenotype (decode AND train), called several times in one process with different
+    # settings on trees that print the same: every returned net carries one weight per connection and evaluates
+    from thefittest.base._gpnn import genotype_to_phenotype as g2p_train
+    for call, (nv_, ibs_, nout_, off_, task_) in enumerate(((3, 1, 1, True, "regression"), (3, 1, 3, True, "classification"), (4, 2, 2, False, "classification"),
+                                                             (3, 1, 1, False, "regression"))):
+        us_ = init_net_uniset(nv_, ibs_, 3, off_)
+        numba_seed(chk.seed + 60)        # the same random trees (same strings) in every call
+        trees_ = [Tree.random_tree(us_, d_) for d_ in (1, 1, 2, 2, 3)]
+        Xg = np.random.RandomState(call).uniform(-1, 1, size=(6, nv_))
+        yg = np.random.RandomState(call).uniform(0, 1, size=6) if task_ == "regression" else np.eye(nout_)[np.arange(6) % nout_]
+        try:
+            nets_ = g2p_train(np.array(trees_, dtype=object), nout_, Xg, yg, {"iters": 2, "pop_size": 4}, O.SHADE,
+                              "softmax" if task_ == "classification" else "ln", off_, task_)
+        except Exception as e:  # noqa
+            chk.fail("decoding and training a population of net trees raises", {"call": call, "n_variables": nv_, "n_outputs": nout_, "offset": off_, "error": repr(e)[:200]},
+                     {"fn": "g2p_train", "clause": "raises"})
+            continue
+        for tr_, nt_ in zip(trees_, nets_):
+            chk.count("g2p_train")
+            chk.case(("g2p_train", call, str(tr_)))
+            okw = len(nt_._weights) == len(nt_._connects) and np.all(np.abs(np.asarray(nt_._weights, dtype=np.float64)) <= 10 + 1e-9)
+            try:
+                outg = nt_.forward(Xg)
+                okf = outg.shape == (1, len(Xg), nout_) and np.all(np.isfinite(outg))
+            except Exception as e:  # noqa
+                okf = False
+            if not (okw and okf):
+                chk.fail("a trained net does not carry exactly one weight per connection within [-10, 10] (or cannot be evaluated)",
+                         {"call_in_this_process": call + 1, "tree": str(tr_), "n_variables": nv_, "n_outputs": nout_, "offset": off_,
+                          "connections": len(nt_._connects), "weights": len(nt_._weights)}, {"fn": "g2p_train", "clause": "weights"})
+                break
     try:
         outs = C.lean_driver([json.dumps(o) for o in ops])
     except Exception as e:
